@@ -173,7 +173,7 @@ def u_from_corrdata(ctx, ref, unk):
     compat = []
     with Patches() as pt:
         pt.set(CD.SampledData, "is_compatible", lambda self, other, *, require=False: compat.append((self, other, require)) or True)
-        pt.set(R, "parallel", type("Par", (), {"on_root": staticmethod(lambda: False)}))
+        pt.set(R, "parallel", type("Par", (), {"on_root": staticmethod(lambda: False), "on_worker": staticmethod(lambda: True)}))
         ctx.canary()
         res = expect_no_exception(ctx, call(R.RedshiftData.from_corrdata.__func__, R.RedshiftData, cross, refd, unkd), name)
     b, k = ctx.fresh_int("b", lo=0), ctx.fresh_int("k", lo=0)
@@ -257,7 +257,7 @@ def u_rd_norm(ctx):
     norm = sigma.total(dzd, nb.t)
     ctx.assume(norm != 0, "pre:non-zero integral")
     with Patches() as pt:
-        pt.set(R, "parallel", type("Par", (), {"on_root": staticmethod(lambda: False)}))
+        pt.set(R, "parallel", type("Par", (), {"on_root": staticmethod(lambda: False), "on_worker": staticmethod(lambda: True)}))
         pt.set(R.RedshiftData, "__init__", lambda self, b, d, s: (setattr(self, "binning", b), setattr(self, "data", d),
                                                                   setattr(self, "samples", s)) and None)
         ctx.canary()
@@ -284,7 +284,7 @@ def u_hist_norm(ctx):
     hd = CC.make_sampled(ctx, binning, nb, N, "hist", cls=R.HistData)
     name = "C04/HistData.normalised"
     with Patches() as pt:
-        pt.set(R, "parallel", type("Par", (), {"on_root": staticmethod(lambda: False)}))
+        pt.set(R, "parallel", type("Par", (), {"on_root": staticmethod(lambda: False), "on_worker": staticmethod(lambda: True)}))
         pt.set(R.HistData, "__init__", lambda self, b, d, s: (setattr(self, "binning", b), setattr(self, "data", d),
                                                               setattr(self, "samples", s)) and None)
         ctx.canary()
